@@ -83,7 +83,7 @@ impl Prop for C12 {
     }
     fn cases(&self, tier: Tier) -> usize {
         match tier {
-            Tier::Quick => 700,
+            Tier::Quick => 2000,
             Tier::Thorough => 8000,
         }
     }
